@@ -1,4 +1,6 @@
 """Engine M specifications (one @spec = one evidence part)."""
+import time
+
 import z3
 
 from engine_m import (Ctx, find_fn, fval, is_err, new_exec, ok_payload, rule_fields, run_fn, setup_rule, spec, tag_is)
@@ -666,6 +668,13 @@ def _(ctx):
         if not evs and not ex.feasible(o.path, d != 0):
             continue
         # an empty event list is legitimate only without a format table (prints "") or for D == 0
+        if not evs:
+            fmt_idx = struct_fields("src/config.rs", "SmartCalcConfig").index("format")
+            has_en = z3.Function("config.%d.has" % fmt_idx, z3.StringSort(), z3.BoolSort())(z3.StringVal("en"))
+            with_table = o.path.add(has_en)
+            if ex.feasible(with_table):
+                ctx.claim(ex, with_table, d == 0, "a non-zero duration is printed as nothing although the language (or 'en') has a format table", rp)
+            continue
         parts = []
         for e in evs:
             count, kind = e[1][3], e[1][4]
@@ -1135,6 +1144,10 @@ def run_expression(ex, shape):
             x = ex.fsym("x%d" % len(xs))
             xs.append(x.t)
             toks.append(EnumV("TokenType", "Number", [x, EnumV("NumberType", "Decimal", [])]))
+        elif c == "t":
+            toks.append(EnumV("TokenType", "Text", [StrV("word")]))
+        elif c == "z":
+            toks.append(EnumV("TokenType", "Timezone", [StrV("UTC"), IntV(0, 32, True)]))
         else:
             toks.append(EnumV("TokenType", "Operator", [IntV(ord(c), 32, False)]))
     p0 = Path(stores={(tk.path, tok_idx): VecV(toks)})
@@ -1287,6 +1300,8 @@ def check_shape(shape):
                 res.update(status="unknown", detail="value query undecided")
     except Unsupported as e:
         res.update(status="unsupported", detail=str(e)[:200])
+    except Exception as e:  # noqa: BLE001  (never let a worker die: the pool would wait forever)
+        res.update(status="unsupported", detail=("%s: %s" % (type(e).__name__, e))[:200])
     res["queries"] = nq
     res["t"] = _t.time() - t0
     return res
@@ -1349,6 +1364,98 @@ def _(ctx):
 def _(ctx):
     res = expression_spec(ctx, 4)
     report_shapes(ctx, res, lambda r: r["detail"].startswith("panic") or r["status"] == "unknown")
+
+
+WORDS = "n+-*/()tz"
+
+
+def check_shape_total(shape):
+    """worker for the totality sweep with word tokens: panic paths and non-termination"""
+    import time as _t
+    ex = new_exec("real", feas_ms=2000)
+    t0 = _t.time()
+    ex.deadline = t0 + 15
+    res = {"shape": shape, "wf": False, "status": "pass", "detail": "", "paths": 0, "queries": 0, "values": None}
+    nq = 0
+    try:
+        for o, xs in run_expression(ex, shape):
+            if _t.time() > ex.deadline:
+                raise Unsupported("block budget exceeded: the time budget of this shape (15 s) is exhausted")
+            res["paths"] += 1
+            if o.kind != "panic":
+                continue
+            s = z3.Solver()
+            s.set("timeout", 20000)
+            for c in ex.domain + ex.assumptions + list(o.path.pc):
+                s.add(c)
+            nq += 1
+            r = s.check()
+            if r == z3.sat:
+                m = s.model()
+                res.update(status="fail", detail="panic: " + o.msg, values=[str(m.eval(x, model_completion=True)) for x in xs])
+                break
+            if r == z3.unknown:
+                res.update(status="unknown", detail="panic path undecided")
+    except Unsupported as e:
+        msg = str(e)
+        if "block budget exceeded" in msg or "call depth" in msg or "time budget" in msg:
+            # the executor ran the same loop / recursion past its budget on concrete control flow: a candidate for
+            # non-termination, decided by the native run (a run that does not return within its time limit)
+            res.update(status="fail", detail="does not terminate within the executor's budget: " + msg[:120], values=["1"] * shape.count("n"))
+        else:
+            res.update(status="unsupported", detail=msg[:200])
+    except Exception as e:  # noqa: BLE001  (a RecursionError surfaces through ctypes as ArgumentError)
+        if "RecursionError" in repr(e) or isinstance(e, RecursionError):
+            res.update(status="fail", detail="does not terminate within the executor's budget (interpreter recursion exhausted)", values=["1"] * shape.count("n"))
+        else:
+            res.update(status="unsupported", detail=("%s: %s" % (type(e).__name__, e))[:200])
+    res["queries"] = nq
+    res["t"] = _t.time() - t0
+    return res
+
+
+def words_spec(ctx, max_len):
+    import itertools
+    import multiprocessing as mp
+    from engine_m import mir, to_f64, f64_bytes
+    mir()
+    todo = ["".join(t) for n in range(1, max_len + 1) for t in itertools.product(WORDS, repeat=n) if ("t" in t or "z" in t)]
+    results = []
+    with mp.Pool(min(16, mp.cpu_count())) as pool:
+        for r in pool.imap_unordered(check_shape_total, todo, chunksize=8):
+            results.append(r)
+            if sum(1 for x in results if x["status"] == "fail") >= 24:
+                pool.terminate()      # enough counterexample candidates; an interrupted sweep is never a pass
+                break
+    ctx.part.functions += ["tokinizer::Tokinizer::missing_token_adder", "syntax::SyntaxParser::parse", "syntax::binary::parse_binary", "syntax::unary::UnaryParser::parse",
+                           "syntax::primative::PrimativeParser::parse", "compiler::Interpreter::execute"]
+    ctx.paths += sum(r["paths"] for r in results)
+    ctx.part.queries += sum(max(1, r["queries"]) for r in results)
+    ctx.part.solver_s += sum(r["t"] for r in results)
+    ctx.part.sample = {"token_shapes": len(results), "alphabet": WORDS, "t": "an unabsorbed word (Text)", "z": "a time zone name (Timezone)"}
+    for r in results:
+        if r["status"] == "unknown":
+            ctx.unknown.append("%s: %s" % (r["shape"], r["detail"]))
+        if r["status"] == "fail":
+            vals = [f64_bytes(to_f64(v)) for v in (r["values"] or [])]
+            enc = [[len(r["shape"])]] + [[WORDS.index(c)] for c in r["shape"]] + vals
+            ctx.failures.append(("tokens %s: %s" % (" ".join(r["shape"]), r["detail"]), {"shape": r["shape"], "numbers": r["values"]}, ("m_replay_token_pipeline", enc)))
+    ctx.failures.sort(key=lambda f: len(f[1]["shape"]))
+    uns = [r for r in results if r["status"] == "unsupported"]
+    if uns and not ctx.failures:
+        raise Unsupported("%d shapes refused, e.g. %s: %s" % (len(uns), uns[0]["shape"], uns[0]["detail"]))
+    if uns:
+        ctx.unknown.append("%d shapes refused, e.g. %s: %s" % (len(uns), uns[0]["shape"], uns[0]["detail"]))
+
+
+@spec("C01", "m_token_pipeline_words_4", "every token list of length <= 4 over {number, + - * / ( ), an unabsorbed word, a time-zone name} that contains a word or zone, through the real glue, parser and interpreter (MIR): no panic path is satisfiable and every loop/recursion terminates (a loop the executor cannot leave within its budget is replayed natively: a run that does not return is the violation)", tiers=("quick",))
+def _(ctx):
+    words_spec(ctx, 4)
+
+
+@spec("C01", "m_token_pipeline_words_5", "same for length <= 5", tiers=("thorough",))
+def _(ctx):
+    words_spec(ctx, 5)
 
 
 @spec("C01", "m_token_pipeline_total_5", "same for length <= 5 (19 607 shapes)", tiers=("thorough",))
@@ -1681,13 +1788,13 @@ class LineRunner:
 
 from mirsmt.execmir import Outcome as execmir_Outcome  # noqa: E402
 
-NAMES = {"x": ["x"], "y": ["y"], "xy": ["x", "y"]}
+NAMES = {"x": ["x"], "y": ["y"], "xy": ["x", "y"], "xyz": ["x", "y", "z"]}
 
 
 def c03_statements():
     """statement templates: (label, lhs name or None, rhs builder(env, fresh) -> (tokens, reference value or None=fails))"""
     sts = []
-    for nm in NAMES:
+    for nm in ("x", "y", "xy"):
         sts.append(("%s=c" % nm, nm, "const"))
         sts.append(("%s=%s+c" % (nm, nm), nm, "self"))
         sts.append(("use %s" % nm, None, "use:" + nm))
@@ -1695,6 +1802,12 @@ def c03_statements():
         sts.append(("%s=eval-fail" % nm, nm, "evalfail"))
     sts.append(("y=x", "y", "copy:x"))
     sts.append(("x=xy*c", "x", "mul:xy"))
+    # appended later (indices 17..21; the native replay body numbers them the same way)
+    sts.append(("X=c", "x", "constcap"))            # the name written with a capital letter: names are case-insensitive
+    sts.append(("use X", None, "usecap:x"))
+    sts.append(("xyz=c", "xyz", "const"))           # a three-word name
+    sts.append(("use xyz+x", None, "use2:xyz:x"))   # a long name followed by an operator and another name
+    sts.append(("use xy y", None, "juxt:xy:y"))     # a name directly followed by another name (juxtaposition adds)
     return sts
 
 
@@ -1704,12 +1817,14 @@ def program_is_defined(prog):
     bound = set()
     for si in prog:
         label, lhs, kind = sts[si]
-        need = None
+        need = []
         if kind == "self":
-            need = lhs
-        elif kind.startswith(("use:", "copy:", "mul:")):
-            need = kind.split(":")[1]
-        if need and need not in bound:
+            need = [lhs]
+        elif kind.startswith(("use:", "copy:", "mul:", "usecap:")):
+            need = [kind.split(":")[1]]
+        elif kind.startswith(("use2:", "juxt:")):
+            need = kind.split(":")[1:]
+        if any(nm not in bound for nm in need):
             return False
         if lhs and kind not in ("fail", "evalfail"):
             bound.add(lhs)
@@ -1736,7 +1851,22 @@ def check_program(prog):
             name_toks = lambda nm: [("t", w) for w in NAMES[nm]]
             if lhs:
                 toks += name_toks(lhs) + [("o", "=")]
-            if kind == "const":
+            if kind == "constcap":
+                toks = [("t", w.upper()) for w in NAMES[lhs]] + [("o", "="), ("n", c)]
+                want = c.t
+            elif kind.startswith("usecap:"):
+                nm = kind[7:]
+                toks += [("t", w.upper()) for w in NAMES[nm]] + [("o", "+"), ("n", c)]
+                want = env[nm] + c.t
+            elif kind.startswith("use2:"):
+                a_, b_ = kind.split(":")[1:]
+                toks += name_toks(a_) + [("o", "+")] + name_toks(b_) + [("o", "+"), ("n", c)]
+                want = env[a_] + env[b_] + c.t
+            elif kind.startswith("juxt:"):
+                a_, b_ = kind.split(":")[1:]
+                toks += name_toks(a_) + name_toks(b_) + [("o", "+"), ("n", c)]
+                want = env[a_] + env[b_] + c.t
+            elif kind == "const":
                 toks += [("n", c)]
                 want = c.t
             elif kind == "self":
@@ -1837,7 +1967,15 @@ def c03_programs(max_len, with_prefix=True):
         for t in itertools.product(range(n), repeat=2):
             pr = pre + t
             if program_is_defined(pr) and pr not in seen:
+                seen.add(pr)
                 yield pr
+        # all four names bound (also the three-word name), then any statement; and the capital spelling first
+        for pre2 in ((idx["x=c"], idx["y=c"], idx["xy=c"], idx["xyz=c"]), (idx["X=c"], idx["x=c"]), (idx["X=c"], idx["y=c"], idx["x=x+c"])):
+            for t in range(n):
+                pr = pre2 + (t,)
+                if program_is_defined(pr) and pr not in seen:
+                    seen.add(pr)
+                    yield pr
 
 
 def c03_spec(ctx, max_len):
@@ -2257,6 +2395,63 @@ def _grouped(digs, ts):
     return parts
 
 
+def _atoms(term):
+    """flatten a string term into atoms: ("lit", text) | ("digit", int term) | ("var", name)"""
+    out = []
+
+    def walk(t):
+        if z3.is_string_value(t):
+            if t.as_string() != "":
+                if out and out[-1][0] == "lit":
+                    out[-1] = ("lit", out[-1][1] + t.as_string())
+                else:
+                    out.append(("lit", t.as_string()))
+        elif z3.is_app(t) and t.decl().kind() == z3.Z3_OP_SEQ_CONCAT:
+            for c in t.children():
+                walk(c)
+        elif z3.is_app(t) and t.decl().name() == "str.from_code":
+            out.append(("digit", z3.simplify(t.arg(0) - 48)))
+        elif z3.is_const(t):
+            out.append(("var", t.decl().name()))
+        else:
+            out.append(("other", t))
+    walk(term)
+    return out
+
+
+def _same_text(got, want):
+    """None if the two atom lists cannot be the same text for all separators, else the arithmetic condition"""
+    if len(got) != len(want):
+        return None
+    conds = []
+    for a, b in zip(got, want):
+        if a[0] != b[0]:
+            if {a[0], b[0]} == {"lit", "digit"}:      # a literal digit against a symbolic one
+                lit, dig = (a, b) if a[0] == "lit" else (b, a)
+                if len(lit[1]) == 1 and lit[1].isdigit():
+                    conds.append(dig[1] == int(lit[1]))
+                    continue
+            return None
+        if a[0] == "digit":
+            conds.append(a[1] == b[1])
+        elif a[0] == "other":
+            return None
+        elif a[1] != b[1]:
+            return None
+    return z3.And(conds) if conds else z3.BoolVal(True)
+
+
+def _guarded(gen, ctx, label):
+    """an enumeration that runs out of its time budget ends early and is recorded as undecided (never as a pass)"""
+    try:
+        yield from gen
+    except Unsupported as e:
+        if "time budget" in str(e):
+            ctx.unknown.append("format_number (%s): %s" % (label, e))
+        else:
+            raise
+
+
 def format_number_spec(ctx, relerr, n_values, max_int, max_fract, modes):
     """format_number(x, ts, ds, N, remove, rounding) against the rule of the property, for every real x with
     |x| < 10^max_int - 1, symbolic separator strings, N in n_values; rendering of floats by contract (models.render_*)"""
@@ -2264,15 +2459,17 @@ def format_number_spec(ctx, relerr, n_values, max_int, max_fract, modes):
     models.FMT_MAX_INT_DIGITS[0] = max_int
     models.FMT_MAX_FRACT[0] = max_fract
     n_ret = 0
+    shape_checks, digit_checks = [], []     # decided after the enumeration: text-shape mismatches first (cheap, and where violations show)
+    t_end = time.time() + (300 if ctx.tier == "quick" else 3600)     # per spec; the unchanged tree needs about 45 s
     for N in n_values:
         for remove in (True, False):
             for rounding in modes:
                 ex = new_exec("real")
                 models.install_fmt(ex)
                 ex.relerr = relerr
+                ex.deadline = min(time.time() + 420, t_end)
                 x = ex.fsym("x")
                 ts, ds = z3.String("ts"), z3.String("ds")
-                ex.inputs["ts"], ex.inputs["ds"] = ts, ds
                 ax = z3.If(x.t >= 0, x.t, -x.t)
                 ex.assumptions.append(ax < 10 ** max_int - 1)
                 if not rounding:
@@ -2282,48 +2479,106 @@ def format_number_spec(ctx, relerr, n_values, max_int, max_fract, modes):
                 label = "N=%d remove=%s rounding=%s" % (N, remove, rounding)
                 fn = find_fn("format_number")
                 args = [x, StrV(ts), StrV(ds), IntV(N, 8, False), z3.BoolVal(remove), z3.BoolVal(rounding)]
-                for o in ex.run(fn, args, Path()):
+                t_start = time.time()
+                for o in _guarded(ex.run(fn, args, Path()), ctx, label):
                     ctx.paths += 1
+                    if len(ctx.failures) >= 6:
+                        break     # enough to report
+                    if time.time() > t_end:
+                        ctx.unknown.append("format_number (%s): the time budget of the spec is exhausted" % label)
+                        break
                     if o.kind == "panic":
                         ctx.reachable(ex, o.path, "format_number can panic (%s): %s" % (label, o.msg), rp)
                         continue
                     if not isinstance(o.value, StrV):
                         raise Unsupported("format_number returned %r" % (o.value,))
                     n_ret += 1
-                    got = o.value.term()
-                    sign = z3.If(x.t < 0, z3.StringVal("-"), z3.StringVal(""))
-                    if rounding:
-                        r = models.round_half_even(ax * (10 ** N))
-                        for l in range(1, max_int + 1):
-                            cond = models.int_digit_range(r, l, N)
-                            pl = o.path.add(cond)
+                    got = _atoms(o.value.term())
+                    for neg in (True, False):
+                        ps = o.path.add(x.t < 0 if neg else x.t >= 0)
+                        if not ex.feasible(ps):
+                            continue
+                        sign = [("lit", "-")] if neg else []
+                        cases = []      # (condition, wanted atoms, description)
+                        if rounding:
+                            r = models.round_half_even(ax * (10 ** N))
+                            for l in range(1, max_int + 1):
+                                digs = [("digit", c[1]) for c in models.digits_of(r, l + N)]
+                                frac = digs[l:]
+                                all_zero = z3.And([c[1] == 0 for c in frac]) if frac else z3.BoolVal(True)
+                                shown_opts = [(z3.BoolVal(False), False)] if N == 0 else ([(z3.Not(all_zero), True), (all_zero, False)] if remove else [(z3.BoolVal(True), True)])
+                                for sc, shown in shown_opts:
+                                    cases.append((z3.And(models.int_digit_range(r, l, N), sc), (l, digs[:l], frac if shown else None)))
+                        else:
+                            for k in range(0, max_fract + 1):
+                                y = ax * (10 ** k)
+                                r = z3.ToInt(y)
+                                exact = z3.And(z3.ToReal(r) == y, r % 10 != 0 if k > 0 else z3.BoolVal(True))
+                                for l in range(1, max_int + 1):
+                                    digs = [("digit", c[1]) for c in models.digits_of(r, l + k)]
+                                    cases.append((z3.And(exact, models.int_digit_range(r, l, k)), (l, digs[:l], digs[l:] if k > 0 else None)))
+                        for cond, (l, ints, frac) in cases:
+                            pl = ps.add(cond)
                             if not ex.feasible(pl):
                                 continue
-                            digs = models.digits_of(r, l + N)
-                            frac = digs[l:]
-                            all_zero = z3.And([c[1] == 0 for c in frac]) if frac else z3.BoolVal(True)
-                            shown = z3.BoolVal(False) if N == 0 else (z3.Not(all_zero) if remove else z3.BoolVal(True))
-                            want = _cat([sign] + _grouped(digs[:l], ts) + [z3.If(shown, _cat([ds] + [_char_term(c) for c in frac]), z3.StringVal(""))])
-                            ctx.claim(ex, pl, got == want, "format_number (%s, %d integer digits): the output is not [-] + the integer digits of x rounded to N digits grouped in threes + [decimal separator + the N fraction digits unless removed as all-zero]" % (label, l), rp)
-                    else:
-                        for k in range(0, max_fract + 1):
-                            y = ax * (10 ** k)
-                            r = z3.ToInt(y)
-                            exact = z3.And(z3.ToReal(r) == y, r % 10 != 0 if k > 0 else z3.BoolVal(True))
-                            for l in range(1, max_int + 1):
-                                pl = o.path.add(z3.And(exact, models.int_digit_range(r, l, k)))
-                                if not ex.feasible(pl):
-                                    continue
-                                digs = models.digits_of(r, l + k)
-                                want = _cat([sign] + _grouped(digs[:l], ts) + ([ds] + [_char_term(c) for c in digs[l:]] if k > 0 else []))
-                                ctx.claim(ex, pl, got == want, "format_number (%s, rounding off, %d integer and %d fraction digits): the output is not [-] + grouped integer digits + [decimal separator + the fraction digits]" % (label, l, k), rp)
-    if not n_ret:
+                            want = list(sign)
+                            for i2, c in enumerate(ints):
+                                want.append(c)
+                                if i2 != l - 1 and (l - 1 - i2) % 3 == 0:
+                                    want.append(("var", "ts"))
+                            if frac is not None:
+                                want += [("var", "ds")] + frac
+                            what = "format_number (%s, %d integer digits%s): the output is not [-] + the integer digits of the value%s grouped in threes by the thousands separator + [decimal separator + fraction digits%s]" % (
+                                label, l, "" if rounding else ", rounding off", " rounded to N digits" if rounding else "", ", omitted when removal is on and all printed fraction digits are 0" if rounding else "")
+                            same = _same_text(got, want)
+                            ctx.part.queries += 1
+                            if same is None:
+                                shape_checks.append((ex, pl, what + " [shape: got %s, wanted %s]" % ("".join("d" if a[0] == "digit" else (a[1] if a[0] != "other" else "?") for a in got), "".join("d" if a[0] == "digit" else a[1] for a in want)), rp))
+                            elif z3.is_true(z3.simplify(same)):
+                                pass      # the same digit terms in the same places: nothing to decide
+                            else:
+                                digit_checks.append((ex, pl, same, what, rp))
+    for ex, pl, what, rp in shape_checks:
+        if len(ctx.failures) >= 6:
+            break
+        ctx.reachable(ex, pl, what, rp, timeout_ms=6000)
+    undecided = 0
+    for ex, pl, same, what, rp in digit_checks:
+        if len(ctx.failures) >= 6:
+            break
+        if time.time() > t_end + 120:
+            undecided += 1
+            continue
+        ctx.claim(ex, pl, same, what, rp, timeout_ms=6000)
+    if undecided:
+        ctx.unknown.append("%d digit claims were not decided within the time budget of the spec" % undecided)
+    if not n_ret and not ctx.failures:
         ctx.failures.append(("format_number: no returning path", {}, None))
+
+
+FORMAT_PROBES = [("format_number_grouped", "-1234567.891", 2, True, True), ("format_number_removed", "1000", 2, True, True),
+                 ("format_number_kept", "0.5", 3, False, True), ("format_number_plain", "12345.25", 1, True, False)]
+
+
+def format_number_probes(ctx):
+    """translator validation: the encoding of format_number (with the rendering contracts) at concrete inputs"""
+    from fractions import Fraction
+    models.FMT_MAX_INT_DIGITS[0], models.FMT_MAX_FRACT[0] = 7, 3
+    for label, xs, n, remove, rounding in FORMAT_PROBES:
+        ex = new_exec("real")
+        models.install_fmt(ex)
+        x = ex.fsym("x")
+        ts, ds = z3.String("ts"), z3.String("ds")
+        fr = Fraction(xs)
+        ex.assumptions.append(x.t == z3.Q(fr.numerator, fr.denominator))
+        outs = list(ex.run(find_fn("format_number"), [x, StrV(ts), StrV(ds), IntV(n, 8, False), z3.BoolVal(remove), z3.BoolVal(rounding)], Path()))
+        ctx.probe(label, ex, outs, lambda o: o.value.term() if isinstance(o.value, StrV) else None, [(ts, z3.StringVal(",")), (ds, z3.StringVal("."))])
 
 
 @spec("C07", "m_format_number", "formatter::format_number (MIR; float -> decimal text by contract: {:.N} gives the digits of round-half-even(|x| 10^N), {} the shortest exact text): for every real |x| < 10^7, N in 0..3, both removal settings, symbolic separator strings: output = [-] + integer digits grouped in threes by the thousands separator + [decimal separator + N fraction digits], the fraction omitted exactly when removal is on and all printed fraction digits are 0; rounding off: values with <= 3 fraction digits print all their digits; no panic")
 def _(ctx):
     format_number_spec(ctx, False, [0, 1, 2, 3], 7, 3, (True, False))
+    format_number_probes(ctx)
 
 
 @spec("C07", "m_format_number_digits_10", "format_number with N = 10 and N = 19 digits (10^N exceeds u32 / u64): no panic, same output rule (|x| < 1000)")
@@ -2331,6 +2586,676 @@ def _(ctx):
     format_number_spec(ctx, False, [10, 19], 3, 0, (True,))
 
 
+@spec("C07", "m_format_number_huge", "format_number for |x| < 10^22 (beyond u64), N in {0, 2}, rounding on: same output rule, no panic")
+def _(ctx):
+    format_number_spec(ctx, False, [0, 2], 22, 0, (True,))
+
+
 @spec("C07", "m_format_number_fp_margin", "same rule with every float multiplication/division of the code carrying a relative rounding error |e| <= 2^-53 (sound over-approximation of IEEE double arithmetic): the printed digits must not depend on a second, separately rounded computation (|x| < 10^4, N in 0..2)")
 def _(ctx):
     format_number_spec(ctx, True, [0, 1, 2], 4, 0, (True,))
+
+
+
+@spec("C07", "m_print_callers", "print of NumberItem (decimal), PercentItem, MoneyItem and DynamicTypeItem (MIR): each hands its own value, the configured thousands and decimal separators and its own digit / zero-removal / rounding settings (number_config, percentage_config, the currency's digit count with money_config, the unit's own settings with defaults 2/true/true) to format_number exactly once, and returns that text unchanged / behind '%' / with the currency symbol on the configured side with or without a blank / substituted for {value} in the unit's format")
+def _(ctx):
+    import re as _re2
+    cfields = struct_fields("src/config.rs", "SmartCalcConfig")
+    cur_fields = struct_fields("src/types.rs", "CurrencyInfo")
+    dyn_fields = struct_fields("src/config.rs", "DynamicType")
+    F, R = z3.String("FORMATTED"), z3.String("REPLACED")
+    for kind in ("NumberItem", "PercentItem", "MoneyItem", "DynamicTypeItem"):
+        ex = new_exec("real")
+        models.install_fmt(ex)
+
+        def h_fn(ex_, name, args, path, depth, caller):
+            yield execmir_Outcome("return", path.event(("format_number", [models.deref(a) for a in args])), StrV(F))
+
+        def h_rep(ex_, name, args, path, depth, caller):
+            yield execmir_Outcome("return", path.event(("replace", [models.deref(a) for a in args])), StrV(R))
+        ex.handlers.insert(0, (_re2.compile(r"^(formatter::)?format_number$"), h_fn))
+        ex.handlers.insert(0, (_re2.compile(r"^(core|alloc)::str::<impl str>::replace::<.*>$"), h_rep))
+        me = SymV(ex, "self", "payload")
+        cfgv = SymV(ex, "config", "config::SmartCalcConfig")
+        sess = SymV(ex, "session", "session::Session")
+        fn = models.item_impl(ex, kind, "print")
+        ctx.part.functions.append("compiler::%s::print" % models.ITEM_MODULE[kind])
+        ts = cfgv.field(cfields.index("thousand_separator"), "alloc::string::String").term()
+        ds = cfgv.field(cfields.index("decimal_seperator"), "alloc::string::String").term()
+
+        def conf(name, i, ty):
+            return cfgv.field(cfields.index(name), "config::" + ("MoneyConfig" if name == "money_config" else "NumberConfig")).field(i, ty)
+        x = me.field(0, "f64").t
+        n_ok = 0
+        for o in ex.run(fn, [RefV(ItemV(kind, me)), RefV(cfgv), RefV(sess)], Path()):
+            ctx.paths += 1
+            pth = o.path
+            if kind == "NumberItem":
+                pth = pth.add(me.field(1, "types::NumberType").tag() == ex.discr("NumberType", "Decimal"))
+                if not ex.feasible(pth):
+                    continue
+            if o.kind == "panic":
+                ctx.reachable(ex, pth, "%s::print can panic: %s" % (kind, o.msg))
+                continue
+            evs = [e for e in pth.events if e[0] == "format_number"]
+            if len(evs) != 1:
+                ctx.failures.append(("%s::print calls format_number %d times" % (kind, len(evs)), {}, None))
+                continue
+            a = evs[0][1]
+            if kind == "NumberItem":
+                want = [conf("number_config", 0, "u8").t, conf("number_config", 1, "bool"), conf("number_config", 2, "bool")]
+            elif kind == "PercentItem":
+                want = [conf("percentage_config", 0, "u8").t, conf("percentage_config", 1, "bool"), conf("percentage_config", 2, "bool")]
+            elif kind == "MoneyItem":
+                cid = me.field(1, "Rc<types::CurrencyInfo>").id
+                want = [z3.Function("currency.f%d" % cur_fields.index("decimal_digits"), z3.IntSort(), z3.IntSort())(cid), conf("money_config", 0, "bool"), conf("money_config", 1, "bool")]
+            else:
+                want = None
+            rpv = ("m_replay_print_callers", [(x, "f64")])
+            ok = [a[0].t == x, a[1].term() == ts, a[2].term() == ds]
+            if want is not None:
+                ok += [a[3].t == want[0], a[4] == want[1], a[5] == want[2]]
+            what = "%s::print does not hand (its value, the thousands separator, the decimal separator, its own digits / removal / rounding settings) to format_number" % kind
+            r1 = ctx.claim(ex, pth, z3.And(ok), what, rpv)
+            if kind == "DynamicTypeItem":
+                # Option fields of the unit: Some(v) -> v, None -> 2 / true / true
+                dt = me.field(1, "Rc<config::DynamicType>")
+                for idx, (fname, ty, dflt) in enumerate([("decimal_digits", "u8", 2), ("remove_fract_if_zero", "bool", True), ("use_fract_rounding", "bool", True)]):
+                    opt = dt.field(dyn_fields.index(fname), "core::option::Option<%s>" % ty)
+                    got = a[3 + idx].t if ty == "u8" else a[3 + idx]
+                    is_some = opt.tag() == 1
+                    val = opt.payload("Some").field(0, ty)
+                    val = val.t if ty == "u8" else val
+                    dv = z3.IntVal(dflt) if ty == "u8" else z3.BoolVal(dflt)
+                    ctx.claim(ex, pth, got == z3.If(is_some, val, dv), "DynamicTypeItem::print does not use the unit's own %s (default %s)" % (fname, dflt), rpv)
+                reps = [e for e in pth.events if e[0] == "replace"]
+                if len(reps) != 1 or not isinstance(o.value, StrV) or not o.value.term().eq(R):
+                    ctx.failures.append(("DynamicTypeItem::print does not return format.replace(\"{value}\", formatted number)", {}, None))
+                    continue
+                ra = reps[0][1]
+                fmt = dt.field(dyn_fields.index("format"), "alloc::string::String").term()
+                ctx.claim(ex, pth, z3.And(ra[0].term() == fmt, ra[1].term() == z3.StringVal("{value}"), ra[2].term() == F), "DynamicTypeItem::print does not substitute the formatted number for {value} in the unit's format", rpv)
+            elif kind == "MoneyItem":
+                sym = z3.Function("currency.f%d" % cur_fields.index("symbol"), z3.IntSort(), z3.StringSort())(cid)
+                left = z3.Function("currency.f%d" % cur_fields.index("symbol_on_left"), z3.IntSort(), z3.BoolSort())(cid)
+                space = z3.Function("currency.f%d" % cur_fields.index("space_between_amount_and_symbol"), z3.IntSort(), z3.BoolSort())(cid)
+                blank = z3.If(space, z3.StringVal(" "), z3.StringVal(""))
+                wanted = z3.If(left, z3.Concat(sym, blank, F), z3.Concat(F, blank, sym))
+                if not isinstance(o.value, StrV):
+                    ctx.failures.append(("MoneyItem::print returns %r" % (o.value,), {}, None))
+                    continue
+                ctx.claim(ex, pth, o.value.term() == wanted, "MoneyItem::print does not put the currency symbol on the configured side of the amount, separated by a blank only when configured", rpv)
+            elif kind == "PercentItem":
+                if not isinstance(o.value, StrV):
+                    ctx.failures.append(("PercentItem::print returns %r" % (o.value,), {}, None))
+                    continue
+                ctx.claim(ex, pth, o.value.term() == z3.Concat(z3.StringVal("%"), F), "PercentItem::print is not '%' followed by the formatted number", rpv)
+            else:
+                if not (isinstance(o.value, StrV) and o.value.term().eq(F)):
+                    ctx.failures.append(("NumberItem::print of a decimal number does not return the formatted number unchanged", {}, None))
+                    continue
+            if r1 == "unsat":
+                n_ok += 1
+        if not n_ok and not ctx.failures:
+            ctx.failures.append(("%s::print: no path reached format_number" % kind, {}, None))
+
+
+
+@spec("C07", "m_format_number_wide", "format_number for |x| < 10^10, N in 0..5, rounding off up to 4 fraction digits; and the fp-margin variant for |x| < 10^7, N in 0..3", tiers=("thorough",))
+def _(ctx):
+    format_number_spec(ctx, False, [0, 1, 2, 3, 4, 5], 10, 4, (True, False))
+    format_number_spec(ctx, True, [0, 1, 2, 3], 7, 0, (True,))
+
+
+@spec("C01", "m_set_text_lines_6", "Session::set_text on every text of <= 6 lines and every LF/CRLF separator pattern", tiers=("thorough",))
+def _(ctx):
+    set_text_lines(ctx, 6)
+
+
+@spec("C04", "m_set_text_lines_6", "Session::set_text on every text of <= 6 lines and every LF/CRLF separator pattern", tiers=("thorough",))
+def _(ctx):
+    set_text_lines(ctx, 6)
+
+
+
+# ============================================================================ C11: the clock-time tokeniser's kernel
+def time_tokeniser(ctx, known_12am, strict=True):
+    import re as _re3
+    ex = new_exec("real")
+    models.install_time_tokeniser(ex)
+    def h_add(ex_, name, args, path, depth, caller):
+        yield execmir_Outcome("return", path.event(("add_token_location", [models.deref(a) for a in args])), z3.Bool("token_added"))
+    ex.handlers.insert(0, (_re3.compile(r"^(tokinizer::)?Tokinizer::<'_>::add_token_location$|^Tokinizer::add_token_location$"), h_add))
+    ex.handlers.insert(0, (_re3.compile(r"^(tokinizer::)?Tokinizer::<'_>::add_uitoken_from_match$|^Tokinizer::add_uitoken_from_match$"), models.h_opaque))
+    cfields = struct_fields("src/config.rs", "SmartCalcConfig")
+    cfgv = SymV(ex, "config", "config::SmartCalcConfig")
+    tk = SymV(ex, "tokinizer", "tokinizer::Tokinizer")
+    fn = find_fn("time_regex_parser")
+    ctx.part.functions.append("tokinizer::regex_tokinizer::time::time_regex_parser")
+    off = cfgv.field(cfields.index("timezone_offset"), "i32").t
+    ex.assumptions.append(z3.And(off >= -12 * 60, off <= 14 * 60))
+    outs = list(ex.run(fn, [RefV(cfgv), RefV(tk), RefV(VecV([RegexV("time")]))], Path()))
+    ctx.paths += len(outs)
+    cap = ex._captures
+    num = z3.Function("str.numeral", z3.StringSort(), z3.IntSort())
+    lower = z3.Function("str.to_lowercase", z3.StringSort(), z3.StringSort())
+    hh, th = cap.group("hour")
+    hm, tm = cap.group("minute")
+    hs, tsec = cap.group("second")
+    hmer, tmer = cap.group("meridiem")
+    H, M, S = num(th), num(tm), num(tsec)
+    mer = lower(tmer)
+    isnum = z3.Function("str.is_numeral", z3.StringSort(), z3.BoolSort())
+    ex.assumptions.append(z3.And(isnum(th), isnum(tm), isnum(tsec)))     # the digit groups of the patterns are numerals
+    # what config.json's time patterns guarantee about a match (the regex engine itself is outside the claim)
+    ex.assumptions.append(z3.And(hh, H >= 0, H <= 23, z3.Implies(hm, z3.And(M >= 0, M <= 59)), z3.Implies(hs, z3.And(hm, S >= 0, S <= 59)),
+                                 z3.Implies(hmer, z3.And(H <= 12, z3.Or(mer == z3.StringVal("am"), mer == z3.StringVal("pm")), z3.Not(hs)))))
+    is_12am = z3.And(hmer, mer == z3.StringVal("am"), H == 12)
+    ex.assumptions.append(is_12am if known_12am else z3.Not(is_12am))
+    d, y, m_, dd = models.today_parts(ex)
+    rp = ("m_replay_time_literal", [(H, "u8"), (hm, "bool"), (z3.If(hm, M, 0), "u8"), (hs, "bool"), (z3.If(hs, S, 0), "u8"), (hmer, "bool"), (mer == z3.StringVal("pm"), "bool"), (off, "i32")])
+    n = 0
+    for o in outs:
+        if o.kind == "panic":
+            ctx.reachable(ex, o.path, "time_regex_parser can panic on a match of the configured time patterns: " + o.msg, rp)
+            continue
+        evs = [e for e in o.path.events if e[0] == "add_token_location"]
+        if len(evs) != 1:
+            if ex.feasible(o.path):
+                ctx.failures.append(("a match of the time patterns does not produce exactly one token (%d)" % len(evs), {}, None))
+            continue
+        tok = evs[0][1][3]
+        tok = tok.f[0] if isinstance(tok, EnumV) and tok.variant == "Some" else None
+        if not (isinstance(tok, EnumV) and tok.variant == "Time"):
+            ctx.failures.append(("the time tokeniser produced %r" % (tok,), {}, None))
+            continue
+        n += 1
+        dt, zone = models.deref(tok.f[0]), models.deref(tok.f[1])
+        hour24 = z3.If(z3.And(hmer, mer == z3.StringVal("pm"), H < 12), H + 12, z3.If(z3.And(hmer, mer == z3.StringVal("am"), H == 12), 0, H))
+        want = d * 86400 + hour24 * 3600 + z3.If(hm, M, 0) * 60 + z3.If(hs, S, 0) - off * 60
+        if known_12am and not strict:
+            # region of the known finding: anything but midnight (right) or noon (the recorded defect) is a new violation
+            ctx.claim(ex, o.path, z3.Or(dt.total() == want, dt.total() == want + 12 * 3600), "a '12 am' literal is neither midnight nor (known finding) noon of today in the configured zone", None)
+        else:
+            ctx.claim(ex, o.path, dt.total() == want, "a clock-time literal is not the instant 'today at H:MM:SS wall time in the configured zone' (wall time minus the zone offset, with the day carry)", rp)
+        zoff = zone.field(1, "i32").t if isinstance(zone, SymV) else (zone.f[1].t if hasattr(zone, "f") else None)
+        if zoff is not None:
+            ctx.claim(ex, o.path, zoff == off, "a clock-time literal does not carry the configured zone offset", rp)
+    if not n:
+        ctx.failures.append(("time_regex_parser: no path produced a Time token", {}, None))
+
+
+@spec("C11", "m_time_literal", "time_regex_parser (MIR; one regex match as input: the named groups hour / minute / second / meridiem are symbolic, constrained by what config.json's time patterns can match): the token is the instant 'today at H:MM:SS in the configured zone' = today's date * 86400 + wall time - offset with the day carry, pm adds 12 hours below 12, for every configured offset -12 h..+14 h; no panic (12 am is a separate known finding)")
+def _(ctx):
+    time_tokeniser(ctx, False)
+
+
+
+@spec("C11", "m_time_literal_12am_bound", "the same kernel for '12[:MM] am': no panic, configured zone, and the instant is midnight or - the recorded known finding - noon; anything else is a new violation")
+def _(ctx):
+    time_tokeniser(ctx, True, strict=False)
+
+
+@spec("C11", "m_time_literal_12am", "the same kernel for '12[:MM] am': midnight-hour literals must denote hour 0 (known finding: read as noon)", finding="C11-12am-read-as-noon")
+def _(ctx):
+    time_tokeniser(ctx, True)
+
+
+
+# ============================================================================ phrases through the REAL rule table (stage B with config.json's rules)
+_RULE_TABLE = {}
+
+
+def rule_table(replayer_factory=None):
+    """(language -> [(function_name, [pattern token specs])]) as the loader builds it from config.json: dumped natively
+    (the pattern strings go through the real regex tokeniser), regenerated on every run"""
+    if _RULE_TABLE:
+        return _RULE_TABLE
+    import engine_m
+    rp = engine_m.Replayer()
+    try:
+        rec = rp.replay("m_dump_rules", [], release=False, raw=True)
+    finally:
+        rp.close()
+    for line in (rec.get("output") or "").splitlines():
+        line = line.strip()
+        if not line.startswith("RULE|"):
+            continue
+        _, lang, fname, toks = line.split("|", 3)
+        _RULE_TABLE.setdefault(lang, []).append((fname, toks.split(";;")))
+    if not _RULE_TABLE:
+        raise Unsupported("native dump of the rule table produced nothing: %s" % str({k: v for k, v in rec.items() if k != "output"})[:200])
+    return _RULE_TABLE
+
+
+def rule_function_names():
+    """name -> function identifier, parsed from the RULE_FUNCTIONS table of src/tokinizer/rule_tokinizer/mod.rs"""
+    import os
+    import common
+    text = open(os.path.join(common.REPO, "src/tokinizer/rule_tokinizer/mod.rs"), errors="replace").read()
+    out = dict(_re.findall(r'm\.insert\("(\w+)"\.to_string\(\),\s*(\w+)\s+as\s+ExpressionFunc\)', text))
+    if not out:
+        raise Unsupported("RULE_FUNCTIONS table not found")
+    return out
+
+
+def pattern_token(spec):
+    kind, _, rest = spec.partition("~")
+    a = rest.split("~")
+    some = lambda v: EnumV("Option", "Some", [StrV(v)]) if v else EnumV("Option", "None", [])
+    strs = lambda v: VecV([StrV(w) for w in v.split(",") if w])
+    if kind == "T":
+        return tinfo(0, rest, EnumV("TokenType", "Text", [StrV(rest)]))
+    if kind == "O":
+        return tinfo(0, rest, EnumV("TokenType", "Operator", [IntV(ord(rest), 32, False)]))
+    if not kind.startswith("F"):
+        raise Unsupported("pattern token %r" % spec)
+    v = kind[1:]
+    if v == "Text":
+        ft = EnumV("FieldType", "Text", [StrV(a[0]), some(a[1] if len(a) > 1 else "")])
+    elif v == "Group":
+        ft = EnumV("FieldType", "Group", [StrV(a[0]), strs(a[1])])
+    elif v == "TypeGroup":
+        ft = EnumV("FieldType", "TypeGroup", [strs(a[1]), StrV(a[0])])
+    elif v == "DynamicType":
+        ft = EnumV("FieldType", "DynamicType", [StrV(a[0]), some(a[1] if len(a) > 1 else "")])
+    else:
+        ft = EnumV("FieldType", v, [StrV(a[0])])
+    return tinfo(0, "{%s}" % a[0], EnumV("TokenType", "Field", [ft]))
+
+
+class PhraseRunner(LineRunner):
+    """a line of lexical tokens through rule_tokinizer with the language's real rule table, then the glue, the parser
+    and the interpreter (all from MIR)"""
+
+    def __init__(self, ex, lang="en"):
+        super().__init__(ex)
+        models.install_phrases(ex)
+        self.lang = lang
+        names = rule_function_names()
+        rules = []
+        for fname, toks in rule_table()[lang]:
+            if fname not in names:
+                raise Unsupported("rule %s has no entry in RULE_FUNCTIONS" % fname)
+            fn = find_fn(names[fname])
+            rules.append((fname, fn, [pattern_token(t) for t in toks]))
+        merged, order = {}, []
+        for fname, fn, pat in rules:
+            if fname not in merged:
+                merged[fname] = (fn, [])
+                order.append(fname)
+            merged[fname][1].append(VecV(pat))
+        self.rules = VecV([EnumV("RuleType", "Internal", [StrV(f), FnPtrV(merged[f][0].name), VecV(merged[f][1])]) for f in order])
+        self.cfields = struct_fields("src/config.rs", "SmartCalcConfig")
+        self.f_rule = find_fn("rule_tokinizer")
+
+    def run_phrase(self, toks):
+        """toks: ('n', FloatV) | ('p', FloatV) | ('m', FloatV, CurrencyV) | ('t', word) | ('o', ch).
+        yields (kind, path, item or message) with kind in value / error / panic"""
+        ex = self.ex
+        self.n += 1
+        tk = SymV(ex, "tokinizerP%d" % self.n, "tokinizer::Tokinizer")
+        infos, pos = [], 0
+        for t in toks:
+            if t[0] == "n":
+                tok = EnumV("TokenType", "Number", [t[1], EnumV("NumberType", "Decimal", [])])
+            elif t[0] == "p":
+                tok = EnumV("TokenType", "Percent", [t[1]])
+            elif t[0] == "m":
+                tok = EnumV("TokenType", "Money", [t[1], t[2]])
+            elif t[0] == "t":
+                tok = EnumV("TokenType", "Text", [StrV(t[1])])
+            else:
+                tok = EnumV("TokenType", "Operator", [IntV(ord(t[1]), 32, False)])
+            infos.append(tinfo(pos, "x", tok))
+            pos += 2
+        st = {
+            (self.sess.path, self.sfields.index("variables")): MapC(),
+            (tk.path, self.tfields.index("token_infos")): VecV(infos),
+            (tk.path, self.tfields.index("tokens")): VecV([]),
+            (tk.path, self.tfields.index("ui_tokens")): OpaqueV("ui_tokens"),
+            (tk.path, self.tfields.index("language")): StrV(self.lang),
+            (tk.path, self.tfields.index("config")): RefV(self.cfgv),
+            (tk.path, self.tfields.index("session")): RefV(self.sess),
+            (self.cfgv.path, self.cfields.index("rule")): MapC({self.lang: self.rules}),
+        }
+
+        def chain(fs, p):
+            if not fs:
+                yield p
+                return
+            for o in ex.run(fs[0], [RefV(tk)], p):
+                if o.kind == "panic":
+                    yield o
+                else:
+                    yield from chain(fs[1:], o.path)
+        for p1 in chain([self.f_rule, self.f_gen, self.f_clean, self.f_add], Path(stores=st)):
+            if isinstance(p1, execmir_Outcome):
+                yield "panic", p1.path, p1.msg
+                continue
+            for o2 in ex.run(self.f_new, [RefV(self.sess), RefV(tk)], p1):
+                for o3 in ex.run(self.f_parse, [RefV(o2.value)], o2.path):
+                    if o3.kind == "panic":
+                        yield "panic", o3.path, o3.msg
+                        continue
+                    r = o3.value
+                    if r.variant == "Err":
+                        yield "error", o3.path, r.f[0]
+                        continue
+                    for o4 in ex.run(self.f_exec, [RefV(self.cfgv), r.f[0], RefV(self.sess)], o3.path):
+                        if o4.kind == "panic":
+                            yield "panic", o4.path, o4.msg
+                            continue
+                        v = o4.value
+                        a = v.f[0] if isinstance(v, EnumV) and v.variant == "Ok" else None
+                        if isinstance(a, EnumV) and a.variant == "Item" and isinstance(a.f[0], ItemV):
+                            yield "value", o4.path, a.f[0]
+                        else:
+                            yield "error", o4.path, None
+
+
+def item_parts(item):
+    """(kind, value term, currency id term or None) of a result item"""
+    f0 = item.f[0] if not isinstance(item.f, SymV) else item.f.field(0, "f64")
+    cur = None
+    if item.kind == "MoneyItem":
+        c = item.f[1] if not isinstance(item.f, SymV) else item.f.field(1, "Rc<types::CurrencyInfo>")
+        cur = models.deref(c).id
+    return item.kind, f0.t, cur
+
+
+C05_PHRASES = [
+    # (label, token template, wanted kind [N = the operand's kind], formula(x, p, b))
+    ("X + p%", ["X", "+", "P"], "N", lambda x, p, b: x * (1 + p / 100)),
+    ("X - p%", ["X", "-", "P"], "N", lambda x, p, b: x * (1 - p / 100)),
+    ("X p% (the sign inside the percentage: 200 -10%)", ["X", "P"], "N", lambda x, p, b: x * (1 + p / 100)),
+    ("p% of X", ["P", "of", "X"], "N", lambda x, p, b: x * p / 100),
+    ("X of p%", ["X", "of", "P"], "N", lambda x, p, b: x * p / 100),
+    ("p% on X", ["P", "on", "X"], "N", lambda x, p, b: x * (1 + p / 100)),
+    ("X on p%", ["X", "on", "P"], "N", lambda x, p, b: x * (1 + p / 100)),
+    ("p% off X", ["P", "off", "X"], "N", lambda x, p, b: x * (1 - p / 100)),
+    ("X off p%", ["X", "off", "P"], "N", lambda x, p, b: x * (1 - p / 100)),
+    ("A is what % of B", ["X", "is", "what", "%", "of", "B"], "PercentItem", lambda x, p, b: z3.If(b == 0, 0, 100 * x / b)),
+    ("A is p% of what", ["X", "is", "P", "of", "what"], "N", lambda x, p, b: z3.If(p == 0, 0, 100 * x / p)),
+]
+
+
+def words_not_currencies(ex, pr, words):
+    """closed world for the connective words of the phrases: they are not currency codes / aliases of config.json
+    (checked against the file; otherwise the rule engine could read 'X of ...' as a currency conversion)"""
+    import json
+    import os
+    import common
+    cfg = json.load(open(os.path.join(common.REPO, "src/json/config.json")))
+    known = {k.lower() for k in cfg.get("currencies", {})} | {k.lower() for k in cfg.get("currency_alias", {})}
+    for lang in cfg.get("languages", {}).values():
+        known |= {str(k).lower() for k in (lang.get("currency_alias") or {})}
+    clash = sorted(set(words) & known)
+    if clash:
+        raise Unsupported("phrase words that are currency names in config.json: %s" % clash)
+    for fld in ("currency", "currency_alias"):
+        idx = pr.cfields.index(fld)
+        has = z3.Function("config.%d.has" % idx, z3.StringSort(), z3.BoolSort())
+        for w in words:
+            ex.assumptions.append(z3.Not(has(z3.StringVal(w))))
+
+
+def check_percent_phrase(job):
+    from engine_m import run_deep, Ctx
+    import check as _check
+    pi, money = job
+
+    def body():
+        label, templ, want_kind, formula = C05_PHRASES[pi]
+        ctx = Ctx(_check.Part("M", "worker", ""), "quick")
+        ex = new_exec("real", feas_ms=3000)
+        ex.max_steps = 40000
+        pr = PhraseRunner(ex)
+        words_not_currencies(ex, pr, sorted({t for t in templ if len(t) > 1 or t.isalpha()} - {"X", "B", "P"}))
+        x, p, b = ex.fsym("x"), ex.fsym("p"), ex.fsym("b")
+        cur = CurrencyV(z3.Int("cur"))
+        ex.inputs["cur"] = cur.id
+        ex.domain.append(z3.And(cur.id >= 0, cur.id < 4))
+        toks = []
+        for t in templ:
+            if t == "X":
+                toks.append(("m", x, cur) if money else ("n", x))
+            elif t == "B":
+                toks.append(("m", b, cur) if money else ("n", b))
+            elif t == "P":
+                toks.append(("p", p))
+            elif len(t) == 1 and not t.isalpha():
+                toks.append(("o", t))
+            else:
+                toks.append(("t", t))
+        rp = ("m_replay_percent_phrase", [(pi, "u8"), (1 if money else 0, "u8"), (x.t, "f64"), (p.t, "f64"), (b.t, "f64")])
+        want = formula(x.t, p.t, b.t)
+        kind_want = want_kind if want_kind != "N" else ("MoneyItem" if money else "NumberItem")
+        what = "'%s' (%s)" % (label, "money" if money else "number")
+        n_ok, seen_value = 0, False
+        for kind, path, v in pr.run_phrase(toks):
+            ctx.paths += 1
+            if kind == "panic":
+                ctx.reachable(ex, path, "%s can panic: %s" % (what, v), rp)
+            elif kind == "error":
+                ctx.reachable(ex, path, "%s does not evaluate" % what, rp)
+            else:
+                seen_value = True
+                k, val, c = item_parts(v)
+                if k != kind_want:
+                    ctx.reachable(ex, path, "%s evaluates to a %s instead of a %s" % (what, k, kind_want), rp)
+                    continue
+                if ctx.claim(ex, path, val == want, "%s is not the textbook formula" % what, rp) == "unsat":
+                    n_ok += 1
+                if k == "MoneyItem":
+                    ctx.claim(ex, path, c == cur.id, "%s changes the currency" % what, rp)
+        if not seen_value and not ctx.failures:
+            ctx.failures.append(("%s: no evaluation path" % what, {}, None))
+        return {"failures": ctx.failures, "unknown": ctx.unknown, "paths": ctx.paths, "queries": ctx.part.queries, "solver_s": ctx.part.solver_s, "ok": n_ok}
+    try:
+        return run_deep(body)
+    except Unsupported as e:
+        return {"unsupported": "%s: %s" % (C05_PHRASES[pi][0], str(e)[:300])}
+    except Exception as e:  # noqa: BLE001
+        return {"unsupported": "%s: %s: %s" % (C05_PHRASES[pi][0], type(e).__name__, str(e)[:300])}
+
+
+@spec("C05", "m_percent_phrases", "every percentage phrase of the property as a token line (numbers and money amounts symbolic) through the REAL rule table of config.json (patterns dumped natively from the loader, regenerated per run), rule_tokinizer / find_match, the glue, the parser and the interpreter (MIR): the phrase evaluates to the textbook formula, in the operand's kind and currency - so each pattern reaches its own rule function with the right field names and no other rule captures the tokens")
+def _(ctx):
+    import multiprocessing as mp
+    from engine_m import mir
+    mir()
+    rule_table()
+    ctx.part.functions += ["tokinizer::rule_tokinizer::rule_tokinizer", "tokinizer::rule_tokinizer::find_match", "types::TokenInfo::eq", "types::TokenType::eq (field matching)",
+                           "tokinizer::Tokinizer::token_generator", "tokinizer::Tokinizer::token_cleaner", "tokinizer::Tokinizer::missing_token_adder", "syntax::SyntaxParser::parse", "compiler::Interpreter::execute"]
+    jobs = [(pi, money) for pi in range(len(C05_PHRASES)) for money in (False, True)]
+    with mp.Pool(min(16, mp.cpu_count())) as pool:
+        results = pool.map(check_percent_phrase, jobs, chunksize=1)
+    n_ok = 0
+    uns = [r["unsupported"] for r in results if "unsupported" in r]
+    for r in results:
+        if "unsupported" in r:
+            continue
+        ctx.failures += r["failures"]
+        ctx.unknown += r["unknown"]
+        ctx.paths += r["paths"]
+        ctx.part.queries += r["queries"]
+        ctx.part.solver_s += r["solver_s"]
+        n_ok += r["ok"]
+    ctx.part.sample = {"phrases": [c[0] for c in C05_PHRASES], "rules_in_table": len({f for f, _ in rule_table()["en"]}), "patterns_in_table": len(rule_table()["en"])}
+    if uns and not ctx.failures:
+        raise Unsupported("; ".join(uns[:3]))
+    if not n_ok and not ctx.failures:
+        ctx.failures.append(("no phrase was decided", {}, None))
+
+
+
+# ============================================================================ wiring of the rule table: which rule takes which phrase
+WIRING = {
+    # property -> [(label, token line, expected rule function, {field name: index of the line token bound to it})]
+    # line tokens: N number, P percent, M money, D date, T time, DT date-time, U duration, Z time zone, Q unit quantity, words / operators literally
+    "C06": [("M to code", ["M", "to", "eur"], "convert_money", {"money": 0, "currency": 2}),
+            ("M code", ["M", "eur"], "convert_money", {"money": 0, "currency": 1})],
+    "C09": [("D to D", ["D", "to", "D"], "to_duration", {"source": 0, "target": 2}),
+            ("D at N", ["D", "at", "N"], "at_date", {"source": 0, "time": 2})],
+    "C10": [("N hours", ["N", "hours"], "duration_parse", {"duration": 0, "type": 1}),
+            ("U U", ["U", "U"], "combine_durations", {"1": 0, "2": 1}),
+            ("U U U", ["U", "U", "U"], "combine_durations", {"1": 0, "2": 1, "3": 2}),
+            ("U as hours", ["U", "as", "hours"], "as_duration", {"source": 0, "type": 2}),
+            ("U in days", ["U", "in", "days"], "as_duration", {"source": 0, "type": 2})],
+    "C11": [("T Z", ["T", "Z"], "time_with_timezone", {"time": 0, "timezone": 1}),
+            ("T to Z", ["T", "to", "Z"], "convert_timezone", {"time": 0, "timezone": 2}),
+            ("DT in Z", ["DT", "in", "Z"], "convert_timezone", {"time": 0, "timezone": 2}),
+            ("T to T", ["T", "to", "T"], "to_duration", {"source": 0, "target": 2}),
+            ("T as hours", ["T", "as", "hours"], "as_duration", {"source": 0, "type": 2})],
+    "C12": [("Q to unit", ["Q", "to", "km"], "dynamic_type_convert", {"source": 0, "type": 2}),
+            ("Q in unit", ["Q", "in", "km"], "dynamic_type_convert", {"source": 0, "type": 2})],
+    "C13": [("N to hex", ["N", "to", "hex"], "number_type_convert", {"number": 0, "type": 2}),
+            ("N binary", ["N", "binary"], "number_type_convert", {"number": 0, "type": 1}),
+            ("N as octal", ["N", "as", "octal"], "number_type_convert", {"number": 0, "type": 2})],
+    "C14": [("N to date", ["N", "to", "date"], "from_unixtime", {"number": 0}),
+            ("N date", ["N", "date"], "from_unixtime", {"number": 0}),
+            ("N to Z", ["N", "to", "Z"], "from_unixtime", {"number": 0, "timezone": 2}),
+            ("D as unix", ["D", "as", "unix"], "to_unixtime", {"data": 0, "type": 2}),
+            ("DT to unixtime", ["DT", "to", "unixtime"], "to_unixtime", {"data": 0, "type": 2}),
+            ("T unix", ["T", "unix"], "to_unixtime", {"data": 0, "type": 1})],
+}
+
+
+WIRING_KINDS = ["N", "P", "M", "D", "T", "DT", "U", "Z", "Q"]
+WIRING_WORDS = ["to", "as", "in", "at", "eur", "hours", "days", "km", "hex", "binary", "octal", "date", "unix", "unixtime"]
+# kind of the single token a rule leaves behind (index into WIRING_KINDS; 255 = not fixed), used by the native witness
+WIRING_RESULT_KIND = {"convert_money": 2, "to_duration": 6, "at_date": 5, "duration_parse": 6, "combine_durations": 6, "time_with_timezone": 4,
+                      "dynamic_type_convert": 8, "number_type_convert": 0, "from_unixtime": 5, "to_unixtime": 0}
+
+
+def wiring_code(c):
+    if c in WIRING_KINDS:
+        return WIRING_KINDS.index(c)
+    if c in WIRING_WORDS:
+        return 16 + WIRING_WORDS.index(c)
+    raise Unsupported("phrase token %r has no code for the native witness" % c)
+
+
+def wiring_token(code, i):
+    mk = lambda variant, fields: EnumV("TokenType", variant, fields)
+    op = lambda n_: OpaqueV("%s%d" % (n_, i))
+    if code == "N":
+        return mk("Number", [FloatV(z3.Real("n%d" % i), z3.BoolVal(False)), EnumV("NumberType", "Decimal", [])])
+    if code == "P":
+        return mk("Percent", [FloatV(z3.Real("p%d" % i), z3.BoolVal(False))])
+    if code == "M":
+        return mk("Money", [FloatV(z3.Real("m%d" % i), z3.BoolVal(False)), CurrencyV(z3.Int("cur%d" % i))])
+    if code == "D":
+        return mk("Date", [op("date"), op("offset")])
+    if code == "T":
+        return mk("Time", [op("time"), op("offset")])
+    if code == "DT":
+        return mk("DateTime", [op("datetime"), op("offset")])
+    if code == "U":
+        return mk("Duration", [op("duration")])
+    if code == "Z":
+        return mk("Timezone", [StrV("UTC"), IntV(0, 32, True)])
+    if code == "Q":
+        return mk("DynamicType", [FloatV(z3.Real("q%d" % i), z3.BoolVal(False)), op("unit")])
+    if len(code) == 1 and not code.isalpha():
+        return mk("Operator", [IntV(ord(code), 32, False)])
+    return mk("Text", [StrV(code)])
+
+
+def check_wiring(job):
+    from engine_m import run_deep
+    prop, wi = job
+    label, line, want_fn, want_fields = WIRING[prop][wi]
+
+    def body():
+        ex = new_exec("real", feas_ms=3000)
+        ex.max_steps = 40000
+        pr = PhraseRunner(ex)
+        names = rule_function_names()
+        marker = EnumV("TokenType", "Number", [FloatV(z3.Real("rule_result"), z3.BoolVal(False)), EnumV("NumberType", "Decimal", [])])
+
+        def h_rule(ex_, name, args, path, depth, caller):
+            yield execmir_Outcome("return", path.event(("rule", name.split("::")[-1], models.deref(args[2]))), EnumV("Result", "Ok", [marker]))
+        ex.handlers.insert(0, (_re.compile(r"^(\w+::)*(%s)$" % "|".join(sorted(set(names.values())))), h_rule))
+        toks = [wiring_token(c, i) for i, c in enumerate(line)]
+        infos = [tinfo(2 * i, "x", t) for i, t in enumerate(toks)]
+        tk = SymV(ex, "tokinizerW", "tokinizer::Tokinizer")
+        st = {
+            (pr.sess.path, pr.sfields.index("variables")): MapC(),
+            (tk.path, pr.tfields.index("token_infos")): VecV(infos),
+            (tk.path, pr.tfields.index("tokens")): VecV([]),
+            (tk.path, pr.tfields.index("ui_tokens")): OpaqueV("ui_tokens"),
+            (tk.path, pr.tfields.index("language")): StrV("en"),
+            (tk.path, pr.tfields.index("config")): RefV(pr.cfgv),
+            (tk.path, pr.tfields.index("session")): RefV(pr.sess),
+            (pr.cfgv.path, pr.cfields.index("rule")): MapC({"en": pr.rules}),
+        }
+        fails, n = [], 0
+        for o in ex.run(pr.f_rule, [RefV(tk)], Path(stores=st)):
+            n += 1
+            if o.kind == "panic":
+                if ex.feasible(o.path):
+                    fails.append("'%s': rule_tokinizer can panic: %s" % (label, o.msg))
+                continue
+            calls = [e for e in o.path.events if e[0] == "rule"]
+            if not calls:
+                fails.append("'%s': no rule takes the phrase (expected %s)" % (label, want_fn))
+                continue
+            fn_called, fields = calls[0][1], calls[0][2]
+            if fn_called != names.get(want_fn, want_fn):
+                fails.append("'%s' is taken by the rule function %s instead of %s" % (label, fn_called, want_fn))
+                continue
+            bound = fields.d if isinstance(fields, MapC) else None
+            if bound is None:
+                raise Unsupported("fields of the rule call: %r" % (fields,))
+            got = {}
+            for k, v in bound.items():
+                ti = models.deref(v)
+                got[k] = next((i for i, inf in enumerate(infos) if inf is ti), None)
+            extra = {k for k in got if k not in want_fields}
+            if {k: got.get(k) for k in want_fields} != want_fields or not extra <= {"conversion", "group"}:
+                fails.append("'%s': %s is called with the fields %s instead of %s (field name -> position in the phrase)" % (label, want_fn, got, want_fields))
+                continue
+            if len(calls) > 1:
+                fails.append("'%s': after %s a further rule (%s) rewrites the result" % (label, want_fn, calls[1][1]))
+        return {"fails": fails, "paths": n}
+    try:
+        return run_deep(body)
+    except Unsupported as e:
+        return {"unsupported": "'%s': %s" % (label, str(e)[:300])}
+    except Exception as e:  # noqa: BLE001
+        return {"unsupported": "'%s': %s: %s" % (label, type(e).__name__, str(e)[:300])}
+
+
+def wiring_spec(ctx, prop):
+    import multiprocessing as mp
+    from engine_m import mir
+    mir()
+    rule_table()
+    jobs = [(prop, i) for i in range(len(WIRING[prop]))]
+    with mp.Pool(min(16, mp.cpu_count())) as pool:
+        results = pool.map(check_wiring, jobs, chunksize=1)
+    ctx.part.functions += ["tokinizer::rule_tokinizer::rule_tokinizer", "tokinizer::rule_tokinizer::find_match", "types::TokenInfo::eq", "types::TokenType::field_compare"]
+    uns = [r["unsupported"] for r in results if "unsupported" in r]
+    for (pr_, wi), r in zip(jobs, results):
+        if "unsupported" in r:
+            continue
+        ctx.paths += r["paths"]
+        ctx.part.queries += max(1, r["paths"])
+        for f in r["fails"]:
+            line, want_fn = WIRING[prop][wi][1], WIRING[prop][wi][2]
+            ctx.failures.append((f, {"phrase": line}, ("m_replay_wiring", [[len(line)]] + [[wiring_code(c)] for c in line] + [[WIRING_RESULT_KIND.get(want_fn, 255)]])))
+    ctx.part.sample = {"phrases": [w[0] for w in WIRING[prop]], "patterns_in_table": len(rule_table()["en"])}
+    if uns and not ctx.failures:
+        raise Unsupported("; ".join(uns[:3]))
+
+
+PROP_CODES = ["C06", "C09", "C10", "C11", "C12", "C13", "C14"]
+
+for _p in PROP_CODES:
+    def _mk(p_):
+        @spec(p_, "m_rule_wiring", "the phrases of this property as token lines (kinds only: the rule functions are stubbed by events) through rule_tokinizer / find_match with config.json's own rule table (dumped natively from the loader on every run): each phrase is taken by exactly its rule function, with the fields bound by name to the right tokens, and no other rule captures it first or rewrites it afterwards")
+        def _(ctx):
+            wiring_spec(ctx, p_)
+    _mk(_p)
